@@ -293,6 +293,7 @@ func (b *Builder) Script(extra []string, wantModel bool) string {
 			sb.WriteString("(assert (distinct " + strings.Join(names, " ") + "))\n")
 		}
 	}
+	sb.WriteString("; --asserts--\n")
 	seen := map[string]bool{}
 	var ground []string
 	for _, a := range b.asserts {
@@ -407,9 +408,9 @@ func (b *Builder) zero(t types.Type) string {
 		}
 		return "0"
 	case *types.Interface:
-		return "nil_iface"
+		return "(mk_iface 0 0)"
 	case *types.Slice:
-		return "nil_slice"
+		return "(mk_slice 0 0 0 0)"
 	case *types.Array:
 		return fmt.Sprintf("((as const %s) %s)", b.sortOf(t), b.zero(u.Elem()))
 	case *types.Struct:
